@@ -11,7 +11,7 @@ ID = "C02"
 LEAN = True  # cases are distinct by construction; see engine.Acc
 RULE = (
     "L1: every value token sequence (13-token alphabet) up to the bound that the reference recogniser accepts as a Value, "
-    "in three contexts (middle field, last field, @string); L2: entries = heads x keys x field lists over a 17-value catalogue "
+    "in three contexts (middle field, last field, @string); L2: entries = heads x keys x field lists over an 18-value catalogue "
     "x comma forms x whitespace at every gap; L3: every document of <=3 catalogue blocks x gap texts; L4: every splitter-alphabet "
     "token sequence up to the bound accepted by the recogniser. Expected blocks are constructive (the generator knows what it "
     "wrote) and must agree with the recogniser. Non-trivial = accepted document with >=1 @-block (distinct by text)."
@@ -29,6 +29,8 @@ def bounds(tier):
         "L1_max_len": 5 if tier == "quick" else 6,
         "L1_core_alphabet": SIGMA_VAL_CORE,
         "L1_core_max_len": 8 if tier == "quick" else 10,
+        "L1_struct_alphabet": SIGMA_VAL_STRUCT,
+        "L1_struct_max_len": 11 if tier == "quick" else 13,
         "L2_entries": "6 heads x 4 keys x field lists (<=2 over 17 values, 3 over 6) x 2 comma forms x 5 whitespace forms + single-gap family",
         "L3_max_blocks": 2 if tier == "quick" else 3,
         "big_documents_entries": bigdocs.SIZES_QUICK if tier == "quick" else bigdocs.SIZES_THOROUGH,
@@ -56,8 +58,9 @@ VALUES = [
     '"a\\"b"',  # escaped quote in quotes
     "{l1\nl2\n  l3}",  # multi-line
     '"p, q = r"',  # , = inside quotes
+    '"a {b {c} "d, e" f} g"',  # quotes and a comma inside braces two deep inside quotes
 ]
-VALUES_SMALL = [VALUES[i] for i in (0, 2, 3, 8, 9, 15)]
+VALUES_SMALL = [VALUES[i] for i in (0, 2, 3, 8, 9, 15, 17)]
 HEADS = [("article", ""), ("Article", ""), ("BOOK", " "), ("", ""), ("misc", "\t"), ("in_proc2", "  ")]
 KEYS = ["k", "Doe_2020:x/y", "", "a.b+c"]
 FKEYS = ["title", "Author", "x-y", "f4"]
@@ -214,11 +217,14 @@ CONTEXTS = [
 
 # deeper over the characters that drive the value scanner (nesting of braces and quotes)
 SIGMA_VAL_CORE = ["a", "{", "}", '"', ",", " "]
+# only the four characters the value scanner branches on: nesting of braces and quotes to depth 3-4
+SIGMA_VAL_STRUCT = ["{", "}", '"', ","]
 
 
 def shards(tier):
     out = [("L1", s) for s in seq_shards(spaces.SIGMA_VAL, 5 if tier == "quick" else 6)]
     out += [("L1core", s) for s in seq_shards(SIGMA_VAL_CORE, 8 if tier == "quick" else 10, min_len=6 if tier == "quick" else 7, prefix_len=3)]
+    out += [("L1struct", s) for s in seq_shards(SIGMA_VAL_STRUCT, 11 if tier == "quick" else 13, min_len=9 if tier == "quick" else 11, prefix_len=4)]
     out += [("L2", i) for i in range(len(HEADS))]
     out += [("L3", i) for i in range(NCAT)]
     out += [("L3pair", i) for i in range(NCAT)]
@@ -254,6 +260,12 @@ def _diff(exp, obs):
 
 def judge(text, expected, acc, level, case=None):
     case = case if case is not None else {"text": text, "level": level}
+    # history: an earlier call on a truncated (hence usually malformed) version of the document, which ends at EOF
+    # in whatever scanner state it reaches, must leave nothing behind
+    try:
+        Splitter(text[: (2 * len(text)) // 3]).split()
+    except Exception:
+        pass
     for route in ("split", "parse_string"):
         acc.trace()
         try:
@@ -310,6 +322,15 @@ def run_shard(shard, tier, acc):
             acc.count("L1core_wellformed_values")
             for name, pre, post, exp in CONTEXTS:
                 check_doc(pre + v + post, exp(v.strip()), acc, "L1core:" + name)
+    elif kind == "L1struct":
+        for toks in seq_iter(SIGMA_VAL_STRUCT, shard[1]):
+            v = "".join(toks)
+            if not dialect.is_value(v):
+                acc.count("L1struct_rejected_values")
+                continue
+            acc.count("L1struct_wellformed_values")
+            for name, pre, post, exp in CONTEXTS:
+                check_doc(pre + v + post, exp(v.strip()), acc, "L1struct:" + name)
     elif kind == "L2":
         for text, exp in l2_cases(shard[1]):
             acc.count("L2_entries")
